@@ -22,6 +22,7 @@ from stone.ir import (
     is_tag_ref,
     is_user_defined_type,
     is_void_type,
+    unwrap_aliases,
     unwrap_nullable, )
 from .helpers import split_words
 
@@ -396,8 +397,11 @@ def fmt_alloc_call(caller):
 
 def fmt_default_value(field):
     if is_tag_ref(field.default):
+        # The field may name the union through an alias; aliases are not
+        # declared in the output.
+        union_data_type, _ = unwrap_aliases(field.default.union_data_type)
         return '[[{} alloc] initWith{}]'.format(
-            fmt_class_prefix(field.default.union_data_type),
+            fmt_class_prefix(union_data_type),
             fmt_class(field.default.tag_name))
     elif is_numeric_type(field.data_type):
         return '@({})'.format(field.default)
